@@ -16,7 +16,7 @@ MANIFEST = {
 META = {
     "modules": ["pkgcore.repository.prototype", "pkgcore.repository.multiplex", "pkgcore.repository.util", "pkgcore.restrictions.util"],
     "functions": ["prototype.tree.itermatch/_internal_match/_identify_candidates/_fast_identify_candidates/_cat_filter/_package_filter", "multiplex.tree.itermatch", "util.SimpleTree"],
-    "bounds": {"quick": "repository cells: 2 categories x 2 packages x {1,2} versions with 4 symbolic presence bits (the others tied to them); 21 leaves; 9 shapes over <=3 leaves (leaf a per obligation, leaf b symbolic, leaf c = a); modes versioned/unversioned/sorted/stacked", "thorough": "6 presence bits, leaf c symbolic over every third leaf"},
+    "bounds": {"quick": "repository cells: 2 categories x 2 packages x {1,2} versions with 4 symbolic presence bits (the others tied to them); 21 leaves; 9 shapes over <=3 leaves (leaf a per obligation, leaf b symbolic, leaf c = a except for and(cat=dev-util, or(b, c)) where c varies too); modes versioned/unversioned/sorted/stacked", "thorough": "6 presence bits, leaf c symbolic over every third leaf"},
     "outside": ["repositories with more than 2 categories / 2 packages", "filtered.tree and caching_repo (C07/C13)", "restrictions on attributes other than category/package/version"],
     "assumptions": [],
     "selector_only": True,
@@ -138,7 +138,8 @@ def obligations(tier, seed):
             for a in range(L):
                 if tier == "quick" and mode in ("sorted", "stacked") and a % 3:
                     continue
-                symc = shape.count("c") > 0 and tier != "quick"
+                # quick: the third leaf varies only where an exact category meets two different package matchers (candidate pruning by exact keys)
+                symc = shape.count("c") > 0 and (tier != "quick" or (shape == "and(a,or(b,c))" and mode == "versioned" and leaves()[a][0] == "cat=dev-util"))
                 obs.append({"oid": f"{shape}|{mode}|a={leaves()[a][0]}", "shape": shape, "mode": mode, "a": a, "symc": symc, "ncells": 4 if tier == "quick" else 6, "max_paths": 3000000, "max_s": 2400})
     UNIVERSE[tier] = {"obligations": len(obs)}
     return obs
